@@ -13,7 +13,7 @@ LEVEL = 'exploration'
 ENV = {'isa': {'001', '021', '025', '023', '024'}, 'gs': {'3', '4', '5', '6'}, 'st': {'2', '3', '4', '23'}}
 # elements of the acknowledgement that merely echo source data
 ECHO = {('AK1', 1), ('AK1', 2), ('AK1', 3), ('AK2', 1), ('AK2', 2), ('AK2', 3), ('AK3', 1), ('AK3', 3), ('IK3', 1), ('IK3', 3),
-        ('AK4', 2), ('AK4', 4), ('IK4', 2), ('IK4', 4), ('AK9', 2), ('GS', 2), ('GS', 3), ('GS', 7), ('ISA', 5), ('ISA', 6), ('ISA', 7), ('ISA', 8), ('ISA', 11), ('ISA', 15),
+        ('AK4', 2), ('AK4', 4), ('IK4', 2), ('IK4', 4), ('AK9', 2), ('GS', 2), ('GS', 3), ('GS', 6), ('GE', 2), ('GS', 7), ('ISA', 5), ('ISA', 6), ('ISA', 7), ('ISA', 8), ('ISA', 11), ('ISA', 15),
         ('TA1', 1), ('TA1', 2), ('TA1', 3)}
 
 
@@ -64,6 +64,17 @@ def hostile_docs():
             d = corpus.build_ok(e, {'groups': ng, 'sets': 2})
             if d is not None:
                 yield ('hostile:%s:groups%d' % (e[4], ng), d.text('!', '|', '>', eol='\n'), {})
+        # (c) control numbers as fixed-width systems write them: blank padded / zero filled, header and trailer alike
+        #     (the source envelope is consistent; the acknowledgement's own envelope must be too)
+        for name, fn in (('pad-right', lambda v: v + '   '), ('pad-left', lambda v: '  ' + v), ('zero-fill', lambda v: '000' + v), ('pad-both', lambda v: ' ' + v + ' ')):
+            for what in ('GS', 'ST', 'GS+ST'):
+                d = copy.deepcopy(corpus.build_ok(e, {'groups': 2, 'sets': 2}) or base)
+                for s_ in d.segs:
+                    if s_[0] == 'GS' and 'GS' in what: s_[6] = fn(s_[6])
+                    elif s_[0] == 'GE' and 'GS' in what: s_[2] = fn(s_[2])
+                    elif s_[0] == 'ST' and 'ST' in what: s_[2] = fn(s_[2])
+                    elif s_[0] == 'SE' and 'ST' in what: s_[2] = fn(s_[2])
+                yield ('hostile:%s:ctl-%s:%s' % (e[4], name, what), d.text(eol='\n'), {})
 
 
 def reread(ack):
@@ -241,7 +252,7 @@ def materialise(thorough, families):
 
 def run(R):
     shards = []
-    for fam, n in (('valid', 16), ('fault', 32), ('shape', 16), ('suite', 4), ('envelope', 16), ('ta1', 4), ('mutant', 48), ('hostile', 32)):
+    for fam, n in (('valid', 16), ('fault', 32), ('shape', 16), ('suite', 4), ('envelope', 16), ('ta1', 4), ('address', 4), ('mutant', 48), ('hostile', 32)):
         for p in range(n):
             shards.append((fam, p, n, R.thorough))
     materialise(R.thorough, sorted(set(s[0] for s in shards)))
